@@ -58,13 +58,13 @@ fn polys_of(a: &IG) -> Vec<Vec<Vec<IP>>> {
     }
 }
 fn rings_touch(a: &IG) -> bool {
-    for p in polys_of(a) {
-        for i in 0..p.len() {
-            for j in i + 1..p.len() {
-                match ring_touch_points(&p[i], &p[j]) {
-                    Ok(c) if c.is_empty() => {}
-                    _ => return true,
-                }
+    // any two rings of the geometry (of the same member or of different members) share a point
+    let rings: Vec<Vec<IP>> = polys_of(a).into_iter().flatten().collect();
+    for i in 0..rings.len() {
+        for j in i + 1..rings.len() {
+            match ring_touch_points(&rings[i], &rings[j]) {
+                Ok(c) if c.is_empty() => {}
+                _ => return true,
             }
         }
     }
@@ -339,6 +339,7 @@ pub fn check_one(sh: &mut Shard, a: &IG, lat: &Lat, verbose: bool) {
             } else {
                 "-"
             };
+            sh.class(&format!("monotone_panic:{}:{}", cls, if touching { "rings_touch" } else { "rings_do_not_touch" }));
             sh.violation(&format!("monotone.panic|{}|{cls}", a.kind()), detail("monotone.panic", a, lat, "no panic".into(), p, json!({"at": loc})))
         }
     }
@@ -391,7 +392,7 @@ fn stitch_check(sh: &mut Shard, a: &IG, lat: &Lat, ts: &[Triangle<f64>], model: 
                 println!("stitch: {} members, area2 {} expected {}", mp.0.len(), sum, area2);
             }
             if sum != area2 {
-                sh.violation(&format!("stitch.area|{}|-", a.kind()), detail("stitch.area", a, lat, area2.to_string(), sum.to_string(), json!({"stitched": format!("{:?}", mp)})));
+                sh.violation(&format!("stitch.area|{}|{}", a.kind(), if rings_touch(a) { "stitch_touching_rings" } else { "-" }), detail("stitch.area", a, lat, area2.to_string(), sum.to_string(), json!({"stitched": format!("{:?}", mp)})));
                 return;
             }
             // same region: locations agree on every lattice and half-lattice point of the envelope
@@ -405,7 +406,7 @@ fn stitch_check(sh: &mut Shard, a: &IG, lat: &Lat, ts: &[Triangle<f64>], model: 
                     let q = (Q::new(hx as i128, 2), Q::new(hy as i128, 2));
                     let (l1, l2) = (model.loc(q), sm.loc(q));
                     if (l1 == Loc::E) != (l2 == Loc::E) || (l1 == Loc::I) != (l2 == Loc::I) {
-                        sh.violation(&format!("stitch.same_region|{}|-", a.kind()), detail("stitch.same_region", a, lat, format!("{:?}", l1), format!("{:?}", l2), json!({"half_lattice": [hx, hy], "stitched": format!("{:?}", mp)})));
+                        sh.violation(&format!("stitch.same_region|{}|{}", a.kind(), if rings_touch(a) { "stitch_touching_rings" } else { "-" }), detail("stitch.same_region", a, lat, format!("{:?}", l1), format!("{:?}", l2), json!({"half_lattice": [hx, hy], "stitched": format!("{:?}", mp)})));
                         return;
                     }
                 }
